@@ -7,7 +7,7 @@ worker layout, rule) are cubes; numbers (work, skills, costs, sizes, absence ste
 import itertools
 
 ASSUMPTIONS = [
-    "IDs unique within each kind of object (the idclash / bare-ID members reuse the same ID text across kinds); task names distinct (skills are keyed by task name); "
+    "IDs unique within each kind of object (the idclash / bare-ID members reuse the same ID text across kinds); task names distinct (skills are keyed by task name) except in the same-name members of C17; "
     "unit_time = 1 except in the members named unit2/... (C04, C07); error_tol default; task_performed_mode = multi-workers",
     "deterministic skills (standard deviation 0)",
     "numbers are small integers or dyadic rationals k/2 (exact in both IEEE double and the solver's real arithmetic)",
